@@ -33,6 +33,9 @@ CLAIMS = {
  "C14": dict(units="include/rtosc/port-sugar.h callbacks (real macros, instantiated in the harness TU) + src/cpp/ports.cpp metadata code via IR; src/rtosc.c, src/dispatch.c",
              text="Per port kind (rParamI [-5,5], rParam char [0,127], rParamF [-3.5,20.25], rToggle, rOption with integer argument, rString(4)) and per query/set, one SAT query covers every incoming value of the storage type and every stored state: clamp, reply on query without state change, broadcast of the new value at the port address, exactly one /undo_change with address, true old and new value iff the value changed, nothing else modified. The callback is invoked directly with d.loc/d.port/d.obj set as dispatch sets them; a recording RtData encodes variadic replies with the real rtosc_vmessage.",
              note="array forms, option symbols, unbounded rParamI and the toggle query are in the harness but excluded (queries do not finish / unmodelled libc path); atoi/atof/strtol/strtod are environment models", ref="4/C14"),
+ "C20": dict(units="src/cpp/midimapper.cpp realtime half (MidiMapperStorage::handleCC/cloneValues, MidiBijection, MidiMapperRT::handleCC, PendingQueue) via IR; src/rtosc.c",
+             text="PARTIAL: the realtime half only, one step from an arbitrary well-formed snapshot (3 mapping tuples with symbolic ids and coarse flags, 2 parameter slots with symbolic 14-bit values; slot assignment, presence of a snapshot and number of pending ids enumerated): an assigned controller drives exactly its parameter's callback once with the composed 14-bit value in [0,16383] and leaves other values alone; an unassigned one produces no parameter message and is offered to the non-realtime side at most once while a learn request waits; cloneValues carries each controller's 7 bits into the next generation; the bijection output is within [min,max] and monotone.",
+             note="the map/unMap/relearn HISTORIES of the statement run through MidiMappernRT (std::map, std::deque, heap lambdas) and the message exchange between the halves: NOT covered; state constructed directly with -fno-access-control", ref="3/C20"),
  "C16": dict(units="src/cpp/arg-val-cmp.c, arg-val-itr.c, arg-val-math.c, arg-val.c, arg-ext.c (one TU lowered via IR), src/rtosc.c",
              text="Per concrete list shape (types, array lengths, run lengths) one query covers all values: reflexive, antisymmetric, transitive, cmp==0 iff eq, semantic order per type; compression invariance of eq/cmp/iteration/message bytes for constant and integer-delta runs, incl. two compressed lists against each other and lists of different length.",
              note="no NaN; non-NULL strings; default cmp options; runs of strings excluded; infinite ranges excluded", ref="4/C16"),
@@ -51,14 +54,13 @@ NA = {
  "C10": "pretty-format.c is a client of snprintf/sscanf/strftime in full generality (%a/%f/%n/%[ directives, float formatting); no validated bounded model of those directives was built, so neither the round trip nor the checker/scanner agreement can be decided by symbolic execution here",
  "C11": "same obstacle as C10: the scanner is driven by sscanf directive semantics that cbmc does not model and that were not modelled by hand in the available time",
  "C15": "UndoHistory keeps its events in a std::deque and allocates every event with new char[len] where len is computed at run time; with the pool allocator stub a symbolic allocation size makes every later address symbolic and the libstdc++ deque code does not finish; no check was built",
- "C20": "the histories of the statement run through MidiMappernRT (std::map<std::string,...>, std::deque, heap lambdas capturing std::string) which is heap-shaped and not encodable within reach; the realtime half alone (MidiMapperStorage::handleCC) was not built in the available time",
  "C12": "end-to-end save/load pipeline over libc formatting (snprintf/sscanf in full generality) and data-shaped heap containers (std::map/std::set/std::vector<std::string>); no bounded symbolic encoding of that pipeline is within reach of cbmc here; its building blocks are decided under C01/C09/C10/C14/C16/C18",
  "C13": "dependency discovery (scan_deps) and the topological sort are local to dispatch_printed_messages and std::map/std::string-bound; they cannot be driven without the whole load pipeline of C12",
 }
 ALL = ["C%02d" % i for i in range(1, 21)]
 # thorough tiers that were run to completion on the unchanged (repaired) tree in this session; the others have a
 # thorough tier in props/<ID>.py that was not validated for lack of time and is therefore not registered
-THOROUGH_OK = {"C02", "C06", "C07", "C08", "C16", "C18", "C19"}
+THOROUGH_OK = {"C02", "C06", "C07", "C08", "C14", "C16", "C18", "C19"}
 m = {"version": 1,
      "setup_cmd": "./setup.sh",
      "hooks": {"guard": "RTOSC_VERIF", "enable": "checks pass -DRTOSC_VERIF to cbmc/clang/gcc when they compile /repo sources; no hook is currently needed (no guarded source change in /repo)",
